@@ -43,10 +43,10 @@ RULE = ("cases: random known-haplotype sets (1..6 haplotypes over 1..4 SNVs, sha
 INBREEDING = [0.0, 0.01, 0.25, 0.5, 0.9]
 
 
-def gen_call_instance(r, max_haps=6):
-    n_base = r.randint(1, 4)
+def gen_call_instance(r, max_haps=6, pooled=False):
+    n_base = r.randint(1, 4) if not pooled else r.randint(3, 4)
     n_alleles = G.gen_n_alleles(r, n_base)
-    n_haps = r.randint(1, max_haps)
+    n_haps = r.randint(1, max_haps) if not pooled else r.randint(5, 8)
     seen, haps = set(), []
     for _ in range(n_haps * 4):
         h = tuple(G.gen_haplotype(r, n_alleles))
@@ -55,12 +55,17 @@ def gen_call_instance(r, max_haps=6):
         if len(haps) == n_haps:
             break
     n = len(haps)
-    ploidy = r.choice([1, 2, 2, 3, 4, 4, 6])
+    ploidy = r.choice([1, 2, 2, 3, 4, 4, 6]) if not pooled else r.choice([16, 21, 24, 30, 32, 40])
     kind, freqs = gen_freqs(r, n)
-    F = r.choice(INBREEDING)
+    F = r.choice(INBREEDING) if not pooled else r.choice([0.0, 0.0, 0.1])
     allowed = [a for a in range(n) if freqs is None or freqs[a] > 0]
     pool = [r.choice(allowed) for _ in range(max(1, ploidy // 2))] if r.random() < 0.6 else allowed
     alleles = [r.choice(pool) for _ in range(ploidy)]
+    if pooled:
+        # a pooled sample: many copies spread evenly over the haplotypes (the number of orderings of such a genotype
+        # exceeds 2^63 from ploidy 21 on)
+        alleles = [allowed[i % len(allowed)] for i in range(ploidy)]
+        r.shuffle(alleles)
     truth = [haps[a] for a in alleles]
     reads, counts = G.gen_reads(r, n_alleles, r.randint(0, 6), haps=truth if r.random() < 0.8 else None,
                                 gap=r.choice([0.0, 0.25]), style=r.choice(["encoded", "encoded", "free"]))
@@ -100,10 +105,10 @@ def run(tier, replay=None):
 
     insts, lines, meta = [], [], []
     for i in range(n_cases):
-        inst = gen_call_instance(r)
+        inst = gen_call_instance(r, max_haps=8, pooled=True) if i % 15 == 7 else gen_call_instance(r)
         n_alleles, haps, ploidy, kind, freqs, F, alleles, reads, counts = inst
         toks = call_tokens(reads, counts, haps, F, freqs)
-        for k in range(ploidy):
+        for k in (range(ploidy) if ploidy <= 8 else sorted(r.sample(range(ploidy), 2))):
             for op in ("call.gibbs", "call.mh"):
                 lines.append(" ".join([op] + toks + [str(k)] + [str(a) for a in alleles]))
                 meta.append((i, k, op))
